@@ -133,7 +133,7 @@ def gen_case(ctx: Ctx):
     cuts = sorted(rng.sample(range(1, n), rng.randint(0, n - 1))) if n > 1 else []
     chunks = [b - a for a, b in zip([0] + cuts, cuts + [n])]
     c = dict(shape=[n, h, w], values=[dyadic(rng, -1, 6, 2) for _ in range(n * h * w)], lazy=lazy, chunks=chunks if lazy else [n],
-             dose=rng.choice([0.5, 1.0, 2.0, 4.0, [1.0, 2.0], [0.5, 1.0, 4.0], [2.0]]),
+             dose=rng.choice([0.5, 1.0, 2.0, 4.0, 0.0, [1.0, 2.0], [0.5, 1.0, 4.0], [2.0], [0.0, 1.0]]),
              seed=pick_seed(rng, 60), samples=rng.choice([1, 1, 2, 3]),
              chunk_size=rng.choice(["128 MB", "128 MB", "64 B", "160 B"]) if lazy else "128 MB", cls=rng.choice(["Images", "DiffractionPatterns"]))
     return c
@@ -257,6 +257,8 @@ class C31(Property):
             expb = np.broadcast_to(expect.reshape((-1, 1) + arr.shape) if isinstance(c["dose"], list) else expect[None, None], obs.shape)
             for d in range(obs.shape[0]):
                 mu = expb[d].mean(); N = obs[d].size
+                if mu == 0 and np.abs(obs[d]).max() != 0:
+                    ctx.violation("zero-rate-gives-counts", c, {"dose_index": d, "max_count": float(np.abs(obs[d]).max())})
                 if mu > 0 and abs(obs[d].mean() - mu) > 6.0 * np.sqrt(mu / N):
                     ctx.violation("mean-count-not-dose-times-signal", c, {"dose_index": d, "observed_mean": float(obs[d].mean()), "expected": float(mu)})
             if c.get("negative") and np.abs(obs[..., 0, 0]).max() != 0:
@@ -307,7 +309,7 @@ class C31(Property):
                                 cls="Images"))
         for _ in range(ctx.n(30, 600)):
             out.append(dict(kind="valid", shape=[rng.randint(1, 4), rng.choice([8, 16]), rng.choice([8, 16])], signal=rng.choice([0.25, 1.0, 3.0]),
-                            dose=rng.choice([4.0, 16.0, 50.0, [4.0, 32.0]]), seed=pick_seed(rng, 10**6),
+                            dose=rng.choice([4.0, 16.0, 50.0, 0.0, [4.0, 32.0], [0.0, 16.0]]), seed=pick_seed(rng, 10**6),
                             samples=rng.choice([1, 1, 2, 3]), negative=rng.random() < 0.3, cls=rng.choice(["Images", "DiffractionPatterns"])))
         for _ in range(ctx.n(40, 800)):
             n = rng.choice([1, 2, 4, 4, 3])
